@@ -60,6 +60,19 @@ def extract():
             raise TranslationError(f"{tgt} assigned twice")
         seen[tgt] = val
     num = seen.get("MESSAGE_NUMBER_TO_PROTO")
+    if num is None:
+        # ... or connection.py imports the table core.py builds in exactly that way (and core.py binds the name only once)
+        imported = any(isinstance(n, ast.ImportFrom) and n.level == 1 and n.module == "core"
+                       and any(a.name == "MESSAGE_NUMBER_TO_PROTO" and a.asname in (None, "MESSAGE_NUMBER_TO_PROTO") for a in n.names)
+                       for n in ctree.body)
+        core_defs = []
+        for node in tree.body:
+            if isinstance(node, ast.Assign) and any(isinstance(t, ast.Name) and t.id == "MESSAGE_NUMBER_TO_PROTO" for t in node.targets):
+                core_defs.append(node.value)
+            elif isinstance(node, (ast.AnnAssign, ast.AugAssign)) and isinstance(node.target, ast.Name) and node.target.id == "MESSAGE_NUMBER_TO_PROTO":
+                core_defs.append(getattr(node, "value", None))
+        if imported and len(core_defs) == 1 and core_defs[0] is not None:
+            num = core_defs[0]
     if num is None or ast.unparse(num) != "tuple(MESSAGE_TYPE_TO_PROTO.values())":
         raise TranslationError("MESSAGE_NUMBER_TO_PROTO is not tuple(MESSAGE_TYPE_TO_PROTO.values())")
     inv = seen.get("PROTO_TO_MESSAGE_TYPE")
